@@ -36,6 +36,7 @@ const (
 	tgAppIn
 	tgToolIn
 	tgPlatform
+	tgMoveInput
 	numToggles
 )
 
@@ -43,7 +44,7 @@ var toggleNames = []string{
 	"append-byte-to-f1", "shift-byte-f1-end-to-f2-start", "add-file-under-glob", "rename-file-under-glob",
 	"lib-command-comment-only", "lib-command-changes-output", "lib-declare-extra-output",
 	"lib-fingerprint-value", "lib-fingerprint-move-equals-sign", "app-alias-edge-to-direct-edge",
-	"edit-app-input", "edit-tool-input", "switch-platform",
+	"edit-app-input", "edit-tool-input", "switch-platform", "move-gen-input-to-other-declared-name",
 }
 
 type wsState struct {
@@ -114,6 +115,17 @@ done
 printf '` + prefix + `{%s}' "$acc" > out/lib.txt
 printf 'extra' > extra.txt
 echo "end $GROG_TARGET" >> "$VTRACE"`
+	// libx is declared BEFORE lib with the very same input patterns but an exclusion: whatever is
+	// remembered about "src/*.txt" for libx must not leak into lib
+	libxCmd := traceStart + `
+acc=""
+for f in src/*.txt; do
+  case "$f" in src/f2*) continue ;; esac
+  if [ -e "$f" ]; then acc="$acc$(basename "$f")=$(cat "$f");"; fi
+done
+printf 'libx{%s}' "$acc" > libx.txt
+echo "end $GROG_TARGET" >> "$VTRACE"`
+	s.Targets = append(s.Targets, hist.Target{Pkg: "a", Name: "libx", Command: libxCmd, Inputs: []string{"src/*.txt"}, Exclude: []string{"src/f2*.txt"}, Outputs: []string{"libx.txt"}})
 	lib := hist.Target{Pkg: "a", Name: "lib", Command: libCmd, Inputs: []string{"src/*.txt"}, Outputs: []string{"out/lib.txt"}}
 	if w.T[tgExtraOut] {
 		lib.Outputs = append(lib.Outputs, "extra.txt")
@@ -164,11 +176,19 @@ echo "end $GROG_TARGET" >> "$VTRACE"`
 printf '#!/bin/sh\necho "made by %s"\n' "$(cat tool.in)" > tool.sh
 echo "end $GROG_TARGET" >> "$VTRACE"`
 	s.Targets = append(s.Targets, hist.Target{Pkg: "b", Name: "tool", Command: toolCmd, Inputs: []string{"tool.in"}, BinOutput: "tool.sh"})
-	s.Files["b/gen.in"] = hist.File{Content: "gen-v1"}
+	// gen declares two literal (non-glob) inputs of which only one exists; the toggle moves the
+	// same bytes to the other declared name
+	if w.T[tgMoveInput] {
+		s.Files["b/gen2.in"] = hist.File{Content: "gen-v1"}
+	} else {
+		s.Files["b/gen.in"] = hist.File{Content: "gen-v1"}
+	}
 	genCmd := traceStart + `
-printf 'gen[%s|%s]' "$(cat gen.in)" "$($(bin :tool))" > gen.txt
+a="$(cat gen.in 2>/dev/null || echo none)"
+b="$(cat gen2.in 2>/dev/null || echo none)"
+printf 'gen[%s|%s|%s]' "$a" "$b" "$($(bin :tool))" > gen.txt
 echo "end $GROG_TARGET" >> "$VTRACE"`
-	s.Targets = append(s.Targets, hist.Target{Pkg: "b", Name: "gen", Command: genCmd, Inputs: []string{"gen.in"}, Outputs: []string{"gen.txt"}, Deps: []string{":tool"}})
+	s.Targets = append(s.Targets, hist.Target{Pkg: "b", Name: "gen", Command: genCmd, Inputs: []string{"gen.in", "gen2.in"}, Outputs: []string{"gen.txt"}, Deps: []string{":tool"}})
 	return s
 }
 
